@@ -8,11 +8,11 @@
 EXTENDS SelLaws, Json
 
 CONSTANTS Mode,      \* "ref" | "c23" | "c24"
-          Tier,      \* "quick" (C23) | "small" (C24 quick) | "thorough"
+          Tier,      \* "small" (development) | "quick" | "thorough"
           RefN       \* size of the universe prefix the monitor is run on in mode "ref"
 
 Singles == {<<"a">>, <<"*">>, <<".c">>, <<".d">>, <<"#i">>, <<"#j">>, <<"[x]">>, <<"[x=y]">>, <<":hover">>, <<"::before">>,
-            <<":is(", ".c", ")">>, <<":not(", ".c", ")">>}
+            <<":is(", ".c", ")">>, <<":not(", ".c", ")">>, <<":is(", ".c", ".d", ")">>, <<":not(", ".c", ",", ".d", ")">>}
 (* in the storage order of the pinned tree (element, id, classes, attributes, pseudos), so that the open
    finding compound_reordered of C19 does not show in these laws *)
 Pairs   == {<<"a", ".c">>, <<"a", "#i">>, <<".c", ".d">>, <<".c", ":hover">>, <<"a", "::before">>, <<".c", "[x]">>,
@@ -21,7 +21,7 @@ Pairs   == {<<"a", ".c">>, <<"a", "#i">>, <<".c", ".d">>, <<".c", ":hover">>, <<
 Compounds == Singles \cup Pairs
 
 Core == IF Tier = "small" THEN {<<"a">>, <<"b">>, <<".c">>}
-        ELSE IF Tier = "quick" THEN {<<"a">>, <<"b">>, <<".c">>, <<":not(", ".c", ")">>}
+        ELSE IF Tier = "quick" THEN {<<"a">>, <<"b">>, <<".c">>, <<"a", ".c">>, <<":not(", ".c", ")">>, <<"*">>}
         ELSE {<<"a">>, <<"b">>, <<".c">>, <<"a", ".c">>, <<":not(", ".c", ")">>, <<"*">>, <<"::before">>}
 Combs == {"sp", ">", "+", "~"}
 
